@@ -22,6 +22,7 @@ func init() {
 			"C13.grammar: the success paths of tar() for a given entry emit element words matching Entry XAttr* (Payload | Symlink | Device | (Filename Child)* Goodbye) and never the empty word. C13.codec: every element type has agreeing encoder and decoder tables (shared with C05).",
 		NotDecided: "the BST layout produced by bst() for each fan-out, the SipHash-2-4 value itself, acceptance by casync.",
 		Rules: []rule{
+			{"C13.tar-index-needs-tar", "tar -i stores its index only when desync.Tar succeeded; a failed Tar never ends in success (shared with C06)", 1, func(c *Ctx) { c.tarIndexNeedsTar() }},
 			{"C13.size-fields", "declared element sizes equal the bytes the encoder writes (linear forms)", 7, c13SizeFields},
 			{"C13.goodbye", "goodbye items: hash of the written name, offsets from the byte counter, tail marker, sorted before layout", 7, c13Goodbye},
 			{"C13.byte-counter", "every encoded element's byte count is added to the running offset", 6, c13ByteCounter},
